@@ -102,7 +102,11 @@ impl Out {
     }
     /// The property's own predicate, evaluated on the implementation alone, failed.
     pub fn oracle_fail(&mut self, what: String) {
-        if self.oracle_failures.len() < 50 {
+        // at most five reports per kind (the text before '|'), so that one frequent kind - e.g. a
+        // listed known finding - cannot crowd a different failure out of the report
+        let kind = what.split('|').next().unwrap_or("").to_string();
+        let same = self.oracle_failures.iter().filter(|f| f.split('|').next() == Some(kind.as_str())).count();
+        if self.oracle_failures.len() < 50 && same < 5 {
             // also on stderr: if the code under test aborts the process later, the report of the
             // crash still carries what had been found
             eprintln!("ORACLE-FAIL {what} [case={}]", self.case_no);
